@@ -12,6 +12,7 @@ import Driver.G9
 import Driver.G10
 import Driver.G11
 import Driver.G12
+import Driver.G13
 /-
   Correspondence driver.  One request per input line, one answer per output line.
   For every request it evaluates the implementation model `Impl.*` and the specification
@@ -60,7 +61,7 @@ def handle : List String → Except String String
       "F1", hexOfBytes f1.1, hexOfBytes f1.2.1, joinHex f1.2.2.1, optNat f1.2.2.2,
       "SP", hexOfBytes sroot, joinHex slayer, joinHex spieces, optNat spad])
   | t =>
-    match ([handleG5, handleG3, handleG6, handleG4, handleG2, handleG7, handleG8, handleG9, handleG10, handleG11, handleG12] : List (List String → Option (Except String String))).findSome? (· t) with
+    match ([handleG5, handleG3, handleG6, handleG4, handleG2, handleG7, handleG8, handleG9, handleG10, handleG11, handleG12, handleG13] : List (List String → Option (Except String String))).findSome? (· t) with
     | some r => r
     | none => .error s!"bad-op:{" ".intercalate t}"
 
